@@ -28,15 +28,88 @@ type Case struct {
 	Fn     string `json:"fn"` // SendTimeout|SendContext|RecvTimeout|RecvContext|RecvQueued|RecvQueuedFull|QueuedConcurrent
 	Cap    int    `json:"cap"`
 	Fill   []int  `json:"fill"`
+	NFill  int    `json:"nfill,omitempty"` // large cases: Fill is genFill(NFill, Pat) (kept out of the replay file)
+	Pat    int    `json:"pat,omitempty"`
 	Closed bool   `json:"closed"`
 	// timed helpers
 	Mode  string `json:"mode,omitempty"` // long|zero|neg|min|short|tiny (timeouts)  live|cancelled|cancel_late (contexts)
 	Sit   string `json:"sit,omitempty"`  // alone|partner|partner_late|close_late
 	Value int    `json:"value,omitempty"`
+	Ns    int64  `json:"ns,omitempty"` // mode "ns": the timeout in nanoseconds
 	// queued receivers
 	Limit int `json:"limit,omitempty"`
 	// QueuedConcurrent
 	N int `json:"n,omitempty"`
+	// large-size stream: checked by the direct oracle only, not sent to the model (a replay always is)
+	NoModel bool `json:"-"`
+}
+
+// genFill: pat 0 = 1..n (distinct: any loss, duplication or reordering shows); pat 1 = few repeated values
+// including zeros (a closed channel must not look like queued zeros); pat 2 = distinct with extreme values.
+func genFill(n, pat int) []int {
+	s := make([]int, n)
+	for i := range s {
+		switch pat {
+		case 1:
+			s[i] = (i*7+i/5)%5 - 1
+		case 2:
+			s[i] = i + 1
+			if i%97 == 13 {
+				s[i] = math.MaxInt - i
+			} else if i%89 == 7 {
+				s[i] = math.MinInt + i
+			}
+		default:
+			s[i] = i + 1
+		}
+	}
+	return s
+}
+
+func nfill(cs Case) int {
+	if cs.Fill == nil {
+		return cs.NFill
+	}
+	return len(cs.Fill)
+}
+
+// marks: sizes at and around the thresholds an implementation may switch behaviour at.
+var marks = []int{0, 1, 2, 3, 7, 8, 9, 15, 16, 17, 31, 32, 33, 63, 64, 65, 127, 128, 129, 255, 256, 257,
+	511, 512, 513, 1023, 1024, 1025, 2047, 2048, 2049, 4095, 4096, 4097}
+
+// dim draws a size in 0..max: half of the time a mark, often near one, otherwise spread out.
+func dim(r *core.Rand, max int) int {
+	v := 0
+	switch k := r.Intn(10); {
+	case k < 5:
+		v = marks[r.Intn(len(marks))]
+	case k < 7:
+		v = marks[r.Intn(len(marks))] + r.Range(-3, 3)
+	case k < 9:
+		v = r.Intn(301)
+	default:
+		v = r.Intn(max + 1)
+	}
+	if v < 0 {
+		v = 0
+	}
+	if v > max {
+		v = max
+	}
+	return v
+}
+
+// diff describes how two long slices differ without printing them.
+func diff(got, want []int) string {
+	for i := 0; i < len(got) && i < len(want); i++ {
+		if got[i] != want[i] {
+			return fmt.Sprintf("length %d, want %d; first difference at index %d: %d, want %d", len(got), len(want), i, got[i], want[i])
+		}
+	}
+	if len(got) <= 12 && len(want) <= 12 {
+		return fmt.Sprintf("%v, want %v", got, want)
+	}
+	return fmt.Sprintf("length %d, want %d (equal up to the shorter length)", len(got), len(want))
 }
 
 const (
@@ -82,17 +155,25 @@ func unlimited(mode string) bool {
 	return mode == "long" || mode == "zero" || mode == "neg" || mode == "min" || mode == "live"
 }
 
+// unlimitedCase: the timer/context does not fire while the scenario runs.
+func unlimitedCase(cs Case) bool {
+	if cs.Mode == "ns" {
+		return cs.Ns <= 0 || cs.Ns >= int64(time.Hour)
+	}
+	return unlimited(cs.Mode)
+}
+
 // valid says whether the scenario has an outcome the harness can wait for.
 func valid(cs Case) bool {
 	isSend := strings.HasPrefix(cs.Fn, "Send")
-	ready := cs.Closed || (isSend && len(cs.Fill) < cs.Cap) || (!isSend && len(cs.Fill) > 0)
+	ready := cs.Closed || (isSend && nfill(cs) < cs.Cap) || (!isSend && nfill(cs) > 0)
 	if cs.Sit == "close_late" && isSend && ready {
 		return false // would the send or the close come first? depends on timing
 	}
 	if cs.Sit != "alone" {
-		return unlimited(cs.Mode) && !cs.Closed
+		return unlimitedCase(cs) && !cs.Closed
 	}
-	return ready || !unlimited(cs.Mode) // alone, unlimited and not ready would wait forever
+	return ready || !unlimitedCase(cs) // alone, unlimited and not ready would wait forever
 }
 
 func run(c *core.Ctx) {
@@ -156,6 +237,12 @@ func run(c *core.Ctx) {
 			exec(c, cs)
 		}
 	}
+	// ---- large sizes: oracle on everything, model on a sample ----
+	bigStreams(c)
+	c.Note("large-size stream (direct oracle on every case, model on every 25th case of size <= 1100): capacity, fill level, " +
+		"limit / len(buf), values per run and timeout magnitude spread over 0..~4100 (timeouts 1ns..1ms, <=0, >=1h), " +
+		"dense at 15..17, 31..33, 63..65, 127..129, 255..257, 511..513, 1023..1025, 2047..2049, 4095..4097; " +
+		"fill level below/at/above the limit, one batch of 64 above it, twice the limit; repeated calls draining one channel")
 	// ---- timer and channel ready together: conservation only (oracle, no model run) ----
 	for i := c.N(4, 40, 20); i > 0; i-- {
 		exec(c, Case{Fn: "TimerRaceSend", N: 30000})
@@ -165,6 +252,204 @@ func run(c *core.Ctx) {
 	for i := c.N(40, 1000, 600); i > 0 && stuck < 3; i-- {
 		exec(c, Case{Fn: "QueuedConcurrent", Cap: c.Rng.Intn(5), N: c.Rng.Range(1, c.N(60, 400, 400)), Limit: c.Rng.Range(1, 7)})
 	}
+}
+
+// execDrain: repeated calls on one channel, alternating RecvQueued and RecvQueuedFull with the same limit,
+// until the queue is empty: every call must return exactly min(limit, remaining) values, in order.
+func execDrain(c *core.Ctx, cs Case) {
+	ch := mkchan(cs)
+	fin := make(chan string, 1)
+	msg := ""
+	go func() {
+		fin <- core.Try(func() {
+			rest := cs.Fill
+			for call := 0; ; call++ {
+				var got []int
+				if call%2 == cs.N%2 {
+					got = chans.RecvQueued(ch, cs.Limit)
+				} else {
+					buf := make([]int, cs.Limit)
+					got = buf[:chans.RecvQueuedFull(ch, buf)]
+				}
+				want := cs.Limit
+				if len(rest) < want {
+					want = len(rest)
+				}
+				if !core.Eq(got, rest[:want]) {
+					msg = fmt.Sprintf("call %d with %d values left: %s", call, len(rest), diff(got, rest[:want]))
+					return
+				}
+				rest = rest[want:]
+				if len(got) == 0 {
+					return
+				}
+			}
+		})
+	}()
+	select {
+	case kind := <-fin:
+		if kind != "" {
+			c.Fail("panic", kind)
+		}
+	case <-time.After(watchdog):
+		stuck++
+		c.Fail("call blocked", "draining with RecvQueued/RecvQueuedFull did not finish")
+		return
+	}
+	c.Nontrivial()
+	if msg != "" {
+		c.Fail("repeated RecvQueued/RecvQueuedFull calls do not hand out the queue in limit-sized pieces", msg)
+	}
+	if left, closed := drain(ch); len(left) != 0 || closed != cs.Closed {
+		c.Fail("channel after draining", fmt.Sprintf("%d values left, closed %v", len(left), closed))
+	}
+}
+
+// bigStreams: the oracle-heavy part of the quick tier. Sizes (capacity, fill level, limit, len(buf), number
+// of values, timeout) are spread over 0..~4100 with extra density at and around powers of two; every case is
+// checked by the direct oracle, every sampleEvery-th one of moderate size also by the model.
+func bigStreams(c *core.Ctx) {
+	const top = 4100
+	idx := 0
+	sample := func(cs Case, size int) Case {
+		idx++
+		cs.NoModel = !(idx%25 == 0 && size <= 1100)
+		return cs
+	}
+	clamp := func(v int) int {
+		if v < 0 {
+			return 0
+		}
+		if v > top+200 {
+			return top + 200
+		}
+		return v
+	}
+	queued := func(fn string, lim, fill, spare, pat int, closed bool) {
+		fill = clamp(fill)
+		size := fill + spare
+		if lim > size {
+			size = lim
+		}
+		if fn == "RecvQueuedFull" && lim < 0 {
+			lim = 0
+		}
+		exec(c, sample(Case{Fn: fn, Cap: fill + spare, NFill: fill, Pat: pat, Fill: nilIfBig(fill, pat), Closed: closed, Limit: lim}, size))
+	}
+	// (a) grid: every mark as the limit x fill level just below / at / above it, one batch above, more than twice
+	for mi, m := range marks {
+		if m < 15 {
+			continue
+		}
+		for _, lim := range []int{m} {
+			for fi, fill := range []int{lim - 1, lim, lim + 1, lim + 64, 2*lim + 1} {
+				for _, fn := range []string{"RecvQueued", "RecvQueuedFull"} {
+					queued(fn, lim, fill, (mi+fi)%2, 0, (mi+fi)%3 == 0)
+				}
+			}
+		}
+	}
+	// (b) random: limit, fill level relative to the limit, spare capacity, value pattern, open/closed
+	for i := c.N(2500, 40000, 20000); i > 0 && stuck < 3; i-- {
+		lim := dim(c.Rng, top)
+		var fill int
+		switch c.Rng.Intn(10) {
+		case 0:
+			fill = lim - 1
+		case 1:
+			fill = lim
+		case 2:
+			fill = lim + 1
+		case 3:
+			fill = lim + []int{63, 64, 65}[c.Rng.Intn(3)]
+		case 4:
+			fill = 2*lim + c.Rng.Range(-1, 1)
+		case 5:
+			fill = lim + dim(c.Rng, top)
+		case 6:
+			fill = lim / 2
+		default:
+			fill = dim(c.Rng, top)
+		}
+		spare := 0
+		if c.Rng.Chance(40) {
+			spare = dim(c.Rng, 130)
+		}
+		fn := "RecvQueued"
+		if c.Rng.Chance(40) {
+			fn = "RecvQueuedFull"
+		} else if c.Rng.Chance(6) { // count parameter: far beyond anything queued, and negative
+			lim = []int{math.MaxInt, math.MaxInt32, 1 << 40, math.MinInt, -4097, -64}[c.Rng.Intn(6)]
+		}
+		queued(fn, lim, fill, spare, c.Rng.Intn(3), c.Rng.Chance(35))
+	}
+	// (c) repeated calls on one channel
+	for i := c.N(400, 6000, 3000); i > 0 && stuck < 3; i-- {
+		fill := dim(c.Rng, top)
+		exec(c, Case{Fn: "QueuedDrain", Cap: fill + c.Rng.Intn(2), NFill: fill, Pat: c.Rng.Intn(3), Fill: nilIfBig(fill, 0),
+			Closed: c.Rng.Chance(35), Limit: 1 + dim(c.Rng, top), N: c.Rng.Intn(2), NoModel: true})
+	}
+	// (d) concurrent producer, limits and capacities beyond the small scope
+	for i := c.N(60, 1500, 800); i > 0 && stuck < 3; i-- {
+		exec(c, Case{Fn: "QueuedConcurrent", Cap: dim(c.Rng, 300), N: 1 + dim(c.Rng, top), Limit: 1 + dim(c.Rng, 300), NoModel: true})
+	}
+	// (e) timed helpers on large channels and with timeouts of every magnitude: alone (ready / not ready)
+	// and with a partner already there; exact outcomes
+	nsFire := []int64{1, 2, 63, 64, 65, 127, 128, 129, 1023, 1024, 1025, 4095, 4096, 4097, 65535, 65536, 65537, 999999, 1000000, 1000001}
+	nsNever := []int64{0, -1, -63, -64, -65, -4096, math.MinInt64, math.MinInt64 + 1, math.MaxInt64, math.MaxInt64 - 1, int64(time.Hour), 1 << 62}
+	for i := c.N(700, 12000, 6000); i > 0 && stuck < 3; i-- {
+		fn := []string{"SendTimeout", "SendContext", "RecvTimeout", "RecvContext"}[c.Rng.Intn(4)]
+		isSend := strings.HasPrefix(fn, "Send")
+		cp := dim(c.Rng, top)
+		var fill int
+		switch c.Rng.Intn(5) {
+		case 0:
+			fill = cp
+		case 1:
+			fill = cp - 1
+		case 2:
+			fill = 0
+		case 3:
+			fill = 1
+		default:
+			fill = dim(c.Rng, cp)
+		}
+		if fill > cp {
+			fill = cp
+		}
+		if fill < 0 {
+			fill = 0
+		}
+		cs := Case{Fn: fn, Cap: cp, NFill: fill, Pat: c.Rng.Intn(3), Fill: nilIfBig(fill, 0), Closed: c.Rng.Chance(15), Value: c.Rng.Range(-1, 99)}
+		ready := cs.Closed || (isSend && fill < cp) || (!isSend && fill > 0)
+		cs.Sit = "alone"
+		if !cs.Closed && c.Rng.Chance(30) {
+			cs.Sit = "partner"
+		}
+		if strings.HasSuffix(fn, "Timeout") {
+			cs.Mode = "ns"
+			if ready || cs.Sit == "partner" {
+				cs.Ns = nsNever[c.Rng.Intn(len(nsNever))]
+			} else {
+				cs.Ns = nsFire[c.Rng.Intn(len(nsFire))]
+			}
+		} else if ready || cs.Sit == "partner" {
+			cs.Mode = "live"
+		} else {
+			cs.Mode = "cancelled"
+		}
+		if valid(cs) {
+			exec(c, sample(cs, cp))
+		}
+	}
+}
+
+// nilIfBig keeps small fills explicit in the case (readable replay files) and large ones generated.
+func nilIfBig(n, pat int) []int {
+	if n <= 16 && pat == 0 {
+		return seq(n, 1)
+	}
+	return nil
 }
 
 // execTimerRace: the timer and the channel become ready at (almost) the same moment — a timeout of a few
@@ -216,6 +501,12 @@ func exec(c *core.Ctx, cs Case) {
 	}
 	c.Begin(cs)
 	c.Count("fn_" + cs.Fn)
+	if cs.Fill == nil && cs.NFill > 0 {
+		cs.Fill = genFill(cs.NFill, cs.Pat)
+	}
+	if cs.NoModel {
+		c.Count("oracle_only")
+	}
 	switch cs.Fn {
 	case "RecvQueued", "RecvQueuedFull":
 		execQueued(c, cs)
@@ -223,6 +514,8 @@ func exec(c *core.Ctx, cs Case) {
 		execConcurrent(c, cs)
 	case "TimerRaceSend", "TimerRaceRecv":
 		execTimerRace(c, cs)
+	case "QueuedDrain":
+		execDrain(c, cs)
 	default:
 		execTimed(c, cs)
 	}
@@ -260,8 +553,16 @@ func execQueued(c *core.Ctx, cs Case) {
 	if n < 0 {
 		n = 0
 	}
-	slice := seq(n, 900) // sentinels: what RecvQueuedFull does not overwrite must stay
+	var slice []int
+	if cs.Fn == "RecvQueuedFull" {
+		slice = seq(n, 900) // sentinels: what RecvQueuedFull does not overwrite must stay
+	}
 	before := append([]int{}, slice...)
+	emit := func(term string) {
+		if !cs.NoModel && n <= 5000 { // the model takes limit+2 steps: never hand it an astronomic limit
+			c.Emit(term)
+		}
+	}
 	var got []int
 	var cnt int
 	resc := make(chan string, 1)
@@ -280,7 +581,7 @@ func execQueued(c *core.Ctx, cs Case) {
 	case <-time.After(watchdog):
 		stuck++
 		c.Fail("call blocked", fmt.Sprintf("%s did not return within %v; it must never block", cs.Fn, watchdog))
-		c.Emit(coqCase(cs, before, fmt.Sprintf("[SHelp %d]", n+2), false, true, "OBlocked", nil, cs.Closed, nil))
+		emit(coqCase(cs, before, fmt.Sprintf("[SHelp %d]", n+2), false, true, "OBlocked", nil, cs.Closed, nil))
 		return
 	}
 	left, closedAfter := drain(ch)
@@ -295,29 +596,36 @@ func execQueued(c *core.Ctx, cs Case) {
 		c.Count("closed")
 	}
 	// direct oracle: exactly the queued prefix, in order; the rest stays; nothing invented
-	res := "OList " + core.ZList(got)
+	res := ""
+	if !cs.NoModel {
+		res = "OList " + core.ZList(got)
+	}
 	if kind != "" {
 		c.Fail("panic", kind)
 		res = "OPanic " + kind
 	} else if cs.Fn == "RecvQueued" {
 		if !core.Eq(got, cs.Fill[:k]) {
-			c.Fail("RecvQueued result is not the queued prefix", fmt.Sprintf("got %v, want %v", got, cs.Fill[:k]))
+			c.Fail("RecvQueued result is not the queued prefix", diff(got, cs.Fill[:k]))
 		}
 	} else {
-		res = fmt.Sprintf("OFull %s %s", core.Z(cnt), core.ZList(slice))
+		if !cs.NoModel {
+			res = fmt.Sprintf("OFull %s %s", core.Z(cnt), core.ZList(slice))
+		}
 		if cnt != k {
 			c.Fail("RecvQueuedFull count", fmt.Sprintf("returned %d, want %d", cnt, k))
 		} else if !core.Eq(slice[:k], cs.Fill[:k]) || !core.Eq(slice[k:], before[k:]) {
-			c.Fail("RecvQueuedFull buffer", fmt.Sprintf("buf %v, want %v followed by the untouched %v", slice, cs.Fill[:k], before[k:]))
+			c.Fail("RecvQueuedFull buffer", "buf is not the queued prefix followed by its untouched rest: "+
+				diff(slice, append(append([]int{}, cs.Fill[:k]...), before[k:]...)))
 		}
 	}
 	if !core.Eq(left, cs.Fill[k:]) {
-		c.Fail("channel contents after the call", fmt.Sprintf("left %v, want %v", left, cs.Fill[k:]))
+		c.Fail("channel contents after the call", fmt.Sprintf("queued %d, limit %d, returned %d values; left in the channel: %s",
+			len(cs.Fill), cs.Limit, len(got)+cnt, diff(left, cs.Fill[k:])))
 	}
 	if closedAfter != cs.Closed {
 		c.Fail("closed state changed", fmt.Sprint(closedAfter))
 	}
-	c.Emit(coqCase(cs, before, fmt.Sprintf("[SHelp %d]", n+2), false, true, res, left, closedAfter, nil))
+	emit(coqCase(cs, before, fmt.Sprintf("[SHelp %d]", n+2), false, true, res, left, closedAfter, nil))
 }
 
 // execConcurrent: a producer sends 1..N and closes while the consumer polls with
@@ -428,6 +736,8 @@ func execTimedOnce(c *core.Ctx, cs Case, report bool) bool {
 		timeout = math.MinInt64
 	case "short":
 		timeout = late
+	case "ns":
+		timeout = time.Duration(cs.Ns)
 	case "tiny":
 		timeout = 1
 	case "cancelled":
@@ -494,7 +804,9 @@ func execTimedOnce(c *core.Ctx, cs Case, report bool) bool {
 	case <-time.After(watchdog):
 		stuck++
 		c.Fail("call blocked", fmt.Sprintf("%s did not return within %v in a scenario where it must", cs.Fn, watchdog))
-		c.Emit(coqCase(cs, nil, sched, doneAtCall, exact, "OBlocked", nil, cs.Closed, nil))
+		if !cs.NoModel {
+			c.Emit(coqCase(cs, nil, sched, doneAtCall, exact, "OBlocked", nil, cs.Closed, nil))
+		}
 		return true
 	}
 	select {
@@ -502,11 +814,13 @@ func execTimedOnce(c *core.Ctx, cs Case, report bool) bool {
 	case <-time.After(watchdog):
 		stuck++
 		c.Fail("partner stuck", fmt.Sprintf("%s returned %+v but the partner goroutine never completed its operation", cs.Fn, o))
-		c.Emit(coqCase(cs, nil, sched, doneAtCall, exact, "OBlocked", nil, cs.Closed, nil))
+		if !cs.NoModel {
+			c.Emit(coqCase(cs, nil, sched, doneAtCall, exact, "OBlocked", nil, cs.Closed, nil))
+		}
 		return true
 	}
 	left, closedAfter := drain(ch)
-	if cs.Sit != "alone" || !unlimited(cs.Mode) || cs.Closed {
+	if cs.Sit != "alone" || !unlimitedCase(cs) || cs.Closed {
 		c.Nontrivial() // a partner, a firing timer/context or a closed channel is involved
 	}
 
@@ -536,7 +850,7 @@ func execTimedOnce(c *core.Ctx, cs Case, report bool) bool {
 		if !o.ok && o.v != 0 {
 			fail("false with a non-zero value", fmt.Sprint(o.v))
 		}
-		if !o.ok && unlimited(cs.Mode) && !closedAfter {
+		if !o.ok && unlimitedCase(cs) && !closedAfter {
 			fail("receive without limit returned false on an open channel", "")
 		}
 	}
@@ -546,7 +860,11 @@ func execTimedOnce(c *core.Ctx, cs Case, report bool) bool {
 	}
 	outv = append(outv, left...)
 	if !core.Eq(in, outv) {
-		fail("conservation", fmt.Sprintf("result %s: values that entered %v, values received then left in the channel %v", res, in, outv))
+		if len(in) > 12 {
+			fail("conservation", fmt.Sprintf("result %s: values received then left in the channel against values that entered: %s", res, diff(outv, in)))
+		} else {
+			fail("conservation", fmt.Sprintf("result %s: values that entered %v, values received then left in the channel %v", res, in, outv))
+		}
 	}
 	if closedAfter != (cs.Closed || cs.Sit == "close_late") {
 		fail("closed state", fmt.Sprint(closedAfter))
@@ -565,7 +883,9 @@ func execTimedOnce(c *core.Ctx, cs Case, report bool) bool {
 	for _, f := range fails {
 		c.Fail(f.what, f.detail)
 	}
-	c.Emit(coqCase(cs, nil, sched, doneAtCall, exact, res, left, closedAfter, envRcvd))
+	if !cs.NoModel {
+		c.Emit(coqCase(cs, nil, sched, doneAtCall, exact, res, left, closedAfter, envRcvd))
+	}
 	return true
 }
 
@@ -585,7 +905,7 @@ func plan(cs Case, isSend bool) (sched string, exact bool) {
 		return "[SHelp 1; SClose; SHelp 1]", true
 	}
 	switch {
-	case unlimited(cs.Mode):
+	case unlimitedCase(cs):
 		return "[SHelp 1]", true
 	case cs.Mode == "cancelled": // c_done = true
 		// closed and drained receive: both branches return (zero,false) and change nothing
@@ -606,7 +926,7 @@ func expect(cs Case, isSend bool) string {
 			return "OPanic SendOnClosed"
 		case cs.Sit == "close_late" && !room:
 			return "OPanic SendOnClosed"
-		case cs.Sit != "alone" || (room && unlimited(cs.Mode)):
+		case cs.Sit != "alone" || (room && unlimitedCase(cs)):
 			return "OBool true"
 		}
 		return "OBool false"
@@ -615,7 +935,7 @@ func expect(cs Case, isSend bool) string {
 	if cs.Sit == "partner" || cs.Sit == "partner_late" {
 		q = append(q, cs.Value)
 	}
-	if len(q) > 0 && (cs.Sit != "alone" || unlimited(cs.Mode)) {
+	if len(q) > 0 && (cs.Sit != "alone" || unlimitedCase(cs)) {
 		return fmt.Sprintf("ORecv %s true", core.Z(q[0]))
 	}
 	return "ORecv 0 false"
@@ -634,6 +954,8 @@ func coqCase(cs Case, slice []int, sched string, done, exact bool, res string, l
 		arg = int64(late)
 	case "tiny":
 		arg = 1
+	case "ns":
+		arg = cs.Ns
 	case "zero", "live", "cancelled", "cancel_late":
 		arg = 0
 	}
